@@ -60,7 +60,17 @@ var (
 	}()
 )
 
+// ShortAcct: account addresses need not be 20 bytes long; this one has 8.
+var ShortAcct = func() Account {
+	ensureConfig()
+	a := sdk.AccAddress([]byte{0x51, 0x52, 0x53, 0x54, 0x55, 0x56, 0x57, 0x58})
+	return Account{Name: "S8", Addr: a, Str: a.String()}
+}()
+
 func acctName(s string) string {
+	if s == ShortAcct.Str {
+		return ShortAcct.Name
+	}
 	for _, a := range Accts {
 		if a.Str == s {
 			return a.Name
@@ -208,6 +218,7 @@ func BaseLedger() LedgerGenesis {
 	lg := DefaultLedger()
 	lg.Balances[UserA.Str] = "1000000"
 	lg.Balances[UserB.Str] = "500"
+	lg.Balances[ShortAcct.Str] = "40"
 	return lg
 }
 
